@@ -385,6 +385,32 @@ def clause_gcf_pairing(ctx):
                          f"{q} applies the geometrical correction factor; "
                          "ranges, scan depths and reported extremes are in "
                          "measured units and only _fit converts")
+    # ... and nowhere else in the package: guesses, ancillaries, features
+    # and maps work in measured units
+    for m_ in ctx.repo.modules.values():
+        for q, f in m_.funcs.items():
+            if (m_.name == "fit" and q.startswith((
+                    "IndentationFitter.", "FitProperties."))) or getattr(
+                        f, "_inlined_helper", False):
+                continue
+            for n in walk_no_nested(f, False):
+                hit = False
+                if isinstance(n, ast.Subscript) and const_str(
+                        n.slice) == "gcf_k" and isinstance(n.ctx, ast.Load):
+                    hit = True
+                elif isinstance(n, ast.Call) and isinstance(
+                        n.func, ast.Attribute) and n.func.attr == "get" \
+                        and n.args and const_str(n.args[0]) == "gcf_k":
+                    hit = True
+                if hit and not m_.name.startswith("cli."):
+                    ctx.fail(n, f"use of gcf_k in {m_.name}.{q}",
+                             f"{m_.relpath}:{q} applies the geometrical "
+                             "correction factor; only "
+                             "IndentationFitter._fit converts between "
+                             "measured and corrected units (once in each "
+                             "direction), every other quantity - initial "
+                             "guesses, ranges, reported values, map "
+                             "features - is in measured units")
     # segment and fitted abscissa both scaled
     for name, mask in (("segment abscissa", "self.segment"),
                        ("fitted abscissa", "self.fit_range")):
@@ -1090,6 +1116,132 @@ def clause_guess_delivery(ctx):
                   "index()]", c, f"initial contact point := {t}",
                   "the initial contact point is not the tip position at the "
                   "estimated contact index")
+
+
+def store_order_constraints(repo):
+    """[(first, second, why)]: pairs of settings whose stores do not commute
+    in FitProperties.__setitem__, derived from its branches on `key`:
+    a branch for key K that writes another setting K2 (K must come first,
+    otherwise K2's new value is overwritten) or reads another setting K2
+    (K2 must come first, otherwise K is judged against the old K2)."""
+    fn = repo.mod("fit").func("FitProperties.__setitem__")
+    out = []
+    for node in ast.walk(fn):
+        other = None
+        kind = None
+        if isinstance(node, ast.Subscript) and isinstance(
+                node.value, ast.Name) and node.value.id == "self":
+            other = const_str(node.slice)
+            kind = "write" if isinstance(node.ctx, ast.Store) else "read"
+        elif isinstance(node, ast.Compare) and len(node.ops) == 1 and \
+                isinstance(node.ops[0], (ast.In, ast.NotIn)) and isinstance(
+                    node.comparators[0], ast.Name) and \
+                node.comparators[0].id == "self":
+            other = const_str(node.left)
+            kind = "read"
+        if other is None:
+            continue
+        ks = [a.text.split("==")[1].strip().strip("'\"")
+              for a in conditions_at(node)
+              if a.pol and a.text.startswith("key == ")]
+        for K in ks:
+            if K == other:
+                continue
+            pair = (K, other, f"storing '{K}' rewrites '{other}'") \
+                if kind == "write" else \
+                (other, K, f"storing '{K}' consults the stored '{other}'")
+            if pair[:2] not in [p[:2] for p in out]:
+                out.append(pair)
+    return out
+
+
+def _order_of(iter_node, a, b):
+    """does iterating `iter_node` visit key a before key b whenever both are
+    present?  True / False / None (cannot tell)"""
+    it = iter_node
+    if not (isinstance(it, ast.Call) and norm(it.func) == "sorted"
+            and len(it.args) == 1):
+        return False       # call order, dict order, set order
+    kws = {k.arg: k.value for k in it.keywords}
+    if "reverse" in kws:
+        rv = kws["reverse"]
+        if not (isinstance(rv, ast.Constant) and rv.value is False):
+            return None
+    if "key" not in kws:
+        return a < b
+    kf = kws["key"]
+    if not (isinstance(kf, ast.Lambda) and len(kf.args.args) == 1):
+        return None
+    arg = kf.args.args[0].arg
+
+    def ev(e, v):
+        if isinstance(e, ast.Name) and e.id == arg:
+            return v
+        if isinstance(e, ast.Constant):
+            return e.value
+        if isinstance(e, ast.Tuple):
+            return tuple(ev(x, v) for x in e.elts)
+        if isinstance(e, ast.UnaryOp) and isinstance(e.op, ast.Not):
+            return not ev(e.operand, v)
+        if isinstance(e, ast.Compare) and len(e.ops) == 1:
+            l, r = ev(e.left, v), ev(e.comparators[0], v)
+            op = e.ops[0]
+            if isinstance(op, ast.Eq):
+                return l == r
+            if isinstance(op, ast.NotEq):
+                return l != r
+            if isinstance(op, ast.In):
+                return l in r
+            if isinstance(op, ast.NotIn):
+                return l not in r
+        if isinstance(e, (ast.List, ast.Set)):
+            return [ev(x, v) for x in e.elts]
+        raise ValueError
+    try:
+        ka, kb = ev(kf.body, a), ev(kf.body, b)
+        if ka == kb:
+            return False     # ties keep the caller's order
+        return ka < kb
+    except (ValueError, TypeError):
+        return None
+
+
+def clause_store_order(ctx):
+    """The loops that copy a whole request into FitProperties (fit_model's
+    keyword loop, the fitter's two settings loops) visit non-commuting
+    settings in the order their dependencies demand."""
+    repo = ctx.repo
+    cons = store_order_constraints(repo)
+    ctx.floor("non-commuting setting pairs in __setitem__", len(cons), 2)
+    sites = []
+    fm = repo.mod("indent").func("Indentation.fit_model")
+    for n in walk_no_nested(fm, False):
+        if isinstance(n, ast.For) and "kwargs" in norm(n.iter) and any(
+                isinstance(s, ast.Assign) and isinstance(
+                    s.targets[0], ast.Subscript) for s in ast.walk(n)):
+            sites.append(("fit_model", n))
+    init = repo.mod("fit").func("IndentationFitter.__init__")
+    for n in walk_no_nested(init, False):
+        if isinstance(n, ast.For) and any(
+                isinstance(s, ast.Assign) and norm(
+                    s.targets[0]).startswith("self.fp[")
+                for s in ast.walk(n)):
+            sites.append(("IndentationFitter.__init__", n))
+    ctx.floor("request-copying loops", len(sites), 3)
+    for where, lp in sites:
+        for a, b, why in cons:
+            v = _order_of(lp.iter, a, b)
+            if v is None:
+                raise Undecided(f"{where}: cannot tell in which order "
+                                f"`{norm(lp.iter)[:60]}` visits '{a}' and "
+                                f"'{b}'")
+            ctx.check(v, lp, f"{where}: '{a}' stored before '{b}'",
+                      f"{where} copies the request in the order of "
+                      f"`{norm(lp.iter)[:60]}`, which does not put '{a}' "
+                      f"before '{b}' for every call; {why}, so the request "
+                      "is then judged against (or overwritten by) the old "
+                      "value and the fit does not use the requested "
+                      "settings")
 
 
 def clause_no_dead_setting(ctx):
